@@ -230,6 +230,15 @@ class Program:
                     continue
                 self.free.setdefault(name.split('::')[-1], []).append(f)
 
+    def simple_consts(self):
+        """one-line items `const NAME: T = const VALUE;` of the dump, by last path segment"""
+        if getattr(self, '_simple_consts', None) is None:
+            d = {}
+            for m in re.finditer(r'^const ([\w:]+): [^=\n]+ = const ([^\n]+);$', self.text, re.M):
+                d.setdefault(m.group(1).rsplit('::', 1)[-1], []).append(m.group(2))
+            self._simple_consts = d
+        return self._simple_consts
+
     def resolve(self, callee):
         """callee text at a call site -> Fn defined in the dump, or None"""
         c = mp.strip_generics(callee).strip()
@@ -808,6 +817,10 @@ class Ctx:
         h = self.ex.handler_for('const ' + t)
         if h[0] == 'model':
             return h[1](self, [], t)
+        sc = self.prog.simple_consts()
+        last = key.rsplit('::', 1)[-1]
+        if last in sc and len(sc[last]) == 1:
+            return self.const(mp.parse_const(sc[last][0]), frame)
         raise Unmodelled('named const ' + t)
 
     def operand(self, frame, op):
